@@ -276,3 +276,53 @@ def _root_of(v, tag):
     while j < len(r) and (r[j].isalnum() or r[j] == "_"):
         j += 1
     return r[i:j]
+
+
+def rule_once(ctx):
+    """R-ONCE: the two functions that decide sharing translate what they share once"""
+    from ..mir import Fn, Flow, op_root
+    fx = ctx.fx
+    res = RuleResult("R-ONCE", "lift (core2axcut) is the place where a statement is moved to one shared definition; R-SHARE treats it as the "
+                     "decision and does not look inside. Inside it, on every path, the shared statement (clones included) reaches at "
+                     "most one translating call (Shrinking::shrink): a second translation - even of a throw-away clone - repeats every lift nested in the "
+                     "body, so k nested shared continuations produce 2^k definitions")
+    specs = [("core2axcut::statements::cut::lift", {"shrink"}, "core2axcut")]
+    PASS = {"clone", "subst_sim", "subst_var", "subst_covar", "unwrap_or_clone", "deref", "as_ref", "borrow", "into", "from", "new", "uniquify", "focus"}
+    for want, consume, crate in specs:
+        f = fx.fn(want)
+        key = f["key"]
+        fn = Fn(f)
+        flow = Flow(fn, extra_pass=lambda t: t.get("callee_name") in PASS, fx=fx)
+        tree_params = [i for i in range(1, f["argc"] + 1) if not f["locals"][i]["ty"].startswith("&mut ") and
+                       any(x in f["locals"][i]["ty"] for x in ("Statement", "Term<", "FsStatement", "Rc<"))]
+        sites = []
+        for bi, t in fn.calls():
+            if t.get("callee_name") not in consume or not t["args"]:
+                continue
+            srcs = set()
+            for a in t["args"]:
+                r = op_root(a)
+                if r is None:
+                    continue
+                for o in flow.origins(r, ()):
+                    if o[0] == "arg" and o[1] in tree_params:
+                        srcs.add(o[1])
+            if srcs:
+                sites.append((bi, t, srcs))
+        ikey = "%s:translated-once" % key
+        bad = None
+        for i, (b1, t1, s1) in enumerate(sites):
+            for b2, t2, s2 in sites[i + 1:]:
+                if (s1 & s2) and (b2 in fn.reach_from(b1) or b1 in fn.reach_from(b2)):
+                    bad = (t1, t2, sorted(s1 & s2)[0])
+        if not sites:
+            raise AnalysisError("R-ONCE: %s no longer translates its argument (no %s call on a parameter)" % (key, "/".join(sorted(consume))))
+        if bad:
+            t1, t2, p = bad
+            res.inst(ikey, t2["sp"]["file"], t2["sp"]["line"], "violation")
+            res.violate(ikey, "%s translates its parameter %d twice on one path (%s at line %d and %s at line %d): every shared continuation nested "
+                        "in it is lifted once per translation, so the number of top-level definitions doubles with each level of nesting" %
+                        (key.split("::")[-1], p, t1.get("callee_name"), t1["sp"]["line"], t2.get("callee_name"), t2["sp"]["line"]), t2["sp"]["file"], t2["sp"]["line"])
+        else:
+            res.inst(ikey, fn.file, fn.line, "ok", "%d translating call(s), no two on one path" % len(sites))
+    return res
